@@ -3,6 +3,9 @@
 history as the full run), then exec an optional hook with env/check/res in scope:
   tools/debug_shard.py C04 quick 0 935 [hook.py]      (PRE=<file> is exec'd before the last case)"""
 import os, sys
+if os.environ.get('PYTHONHASHSEED') != '0':      # the runner's workers run with hash seed 0: same history only then
+  os.environ['PYTHONHASHSEED'] = '0'
+  os.execv(sys.executable, [sys.executable] + sys.argv)
 V = os.path.dirname(os.path.dirname(os.path.abspath(__file__)))
 sys.path.insert(0, V)
 from vlib import framework as fw, boot
